@@ -95,6 +95,16 @@ class SymEnv:
         self.ctx.assume(z3.Or(v.e == 0, v.e == 1))
         return v
 
+    def float64(self, name, lo=None, hi=None):
+        """an IEEE double (not a real): lo < value < hi, never NaN / infinite"""
+        v = self.ctx.fresh(name, 'F64')
+        self.ctx.assume(z3.Not(z3.Or(z3.fpIsNaN(v.e), z3.fpIsInf(v.e))))
+        if lo is not None:
+            self.ctx.assume(z3.fpGT(v.e, z3.FPVal(float(lo), core.F64)))
+        if hi is not None:
+            self.ctx.assume(z3.fpLT(v.e, z3.FPVal(float(hi), core.F64)))
+        return v
+
     def reals(self, name, shape, floatable=False, **kw):
         a = np.empty(shape, dtype=object)
         for idx in np.ndindex(a.shape):
@@ -297,6 +307,9 @@ class ConcEnv:
         return int(self._get(name))
 
     def binary(self, name):
+        return float(self._get(name))
+
+    def float64(self, name, lo=None, hi=None):
         return float(self._get(name))
 
     def reals(self, name, shape, floatable=False, **kw):
